@@ -228,13 +228,13 @@ def open_and_read(spec, path, mode='r'):
 # --------------------------------------------------------------------- judge
 def judge(spec, exp, o, complete, k):
     """[(clause, message, tag)] for one prefix of k bytes whose read
-    completed.  The atomic unit of a bpch file is the data block: files
-    whose diagnostics have different numbers of time blocks are valid, so a
-    tracer that is absent or has fewer time blocks than another is accepted;
-    what is exposed must be true: time = m <= n, every exposed tracer
-    variable has m_v <= (its data blocks completely inside the prefix)
-    leading steps, bit-identical to the full file; tau0/tau1 of the m steps
-    identical."""
+    completed.  A time block (step) is complete when ALL data blocks that
+    carry its tau0 are inside the prefix.  What is exposed must be complete
+    and true: time = m <= (complete time blocks) <= n; the variable set of
+    the exposed steps equals the full file's and every tracer variable has
+    exactly m leading steps (clause incomplete-time-block otherwise: a step
+    with tracers missing is not a complete step); values bit-identical to the
+    full file; tau0/tau1 of the m steps identical."""
     out = []
     n = exp.nsteps
     m = o.dims.get('time')
@@ -268,6 +268,15 @@ def judge(spec, exp, o, complete, k):
         if msg:
             out.append(('data-differ', msg, ''))
             break
+    if m > 0:
+        short = [key for key in exp.vars
+                 if key not in o.vars or o.vars[key].ndim != 4 or
+                 o.vars[key].shape[0] != m]
+        if short or m > complete:
+            out.append(('incomplete-time-block', 'exposes %d time block(s) '
+                        'of which only %d are complete in the prefix; '
+                        'tracers missing or shorter than time: %r' % (
+                            m, complete, short), ''))
     for nm, got, col in (('tau0', o.tau0, 0), ('tau1', o.tau1, 1)):
         g = np.asarray(got, dtype='f8').ravel()
         w = exp.taus[:m, col]
